@@ -196,6 +196,20 @@ example : (execHistory (fun (_ : Nat) => (none : Option Nat))
     [⟨true, [.get 1, .set 1 (some 7), .get 1]⟩, ⟨false, [.set 1 (some 9), .get 1]⟩, ⟨false, [.set 1 (some 3)]⟩,
      ⟨true, [.get 1]⟩]).2 = [[none, some 7], [some 9], [], [some 7]] := by decide
 
+/-! The driver's `stale-read-after-commit` oracle (`Probe`) on small histories: a transaction logs digest
+`d1` for channel `01` at its end and commits; the next step must read `d1` at its start — `d0` is stale;
+a failed step's end-of-run state is not the committed one; a committing step that wrote the channel's
+owner without logging the channel makes it unknown (no comparison). -/
+example :
+    let t1 : StepObs := ⟨true, [("01", "d0")], [("01", "d1")], ["01"]⟩
+    let p1 := Probe.next (fun ch => [ch]) [] t1
+    staleChannels p1 ⟨false, [("01", "d1")], [], []⟩ = [] ∧
+    staleChannels p1 ⟨true, [("01", "d0")], [], []⟩ = ["01"] ∧
+    staleChannels (Probe.next (fun ch => [ch]) p1 ⟨false, [("01", "d1")], [("01", "d2")], []⟩)
+      ⟨true, [("01", "d1")], [], []⟩ = [] ∧
+    staleChannels (Probe.next (fun ch => [ch]) p1 ⟨true, [], [], ["01"]⟩) ⟨true, [("01", "zz")], [], []⟩ = [] := by
+  decide
+
 /-! Non-vacuity: ordinary accepted executions (from real runs). -/
 example : accept .tx [.host, .host, .pp, .step, .read, .read, .alloc, .alloc, .step, .log, .host,
     .write 1 false 0, .write 1 true 1, .write 1 true 2, .endOk] = .ok ⟨.done, false⟩ := by decide
